@@ -261,6 +261,11 @@ func (c *Component) HandleCDN(s *Session) {
 // HandleStopCCN tears the tunnel down.
 func (c *Component) HandleStopCCN(t *Tunnel) {
 	t.FSM.Stop()
+	// The runner is stopped below, so the ZLB that Recv scheduled for the
+	// StopCCN would never be sent: acknowledge it now (RFC 2661 §5.7).
+	if t.Channel != nil {
+		t.Channel.FlushAck()
+	}
 	c.stopTunnelRunner(t.PeerIP, t.LocalID)
 	c.unregisterTunnel(t.PeerIP, t.LocalID)
 	c.releaseTunnelID(t.PeerIP, t.LocalID)
